@@ -119,6 +119,9 @@ cv_i1 co_await_suspend_fn(COAW *this_, void (*fn)(SP *, AWT *, cv_i8 *), cv_i8 *
 __CPROVER_requires(CO_PRE(this_) && gh_my_node == (void *)CO_NODE(this_) && gh_node_own == OWN_ME && CO_NODE(this_)->_next == 0 && fn != 0)
 CO_ASSIGNS(this_)
 CO_SUSPEND_POST(this_, ctx, fn)
+#ifdef CV_CHECK_C03
+__CPROVER_ensures(__CPROVER_return_value == 0 ==> (gh_view & V_PAYLOAD))
+#endif
 ;
 #endif
 /* sync(): blocks until resolved.  std::atomic<bool>::wait is a primitive: it returns only after the flag was set, which only the resolver's
@@ -147,7 +150,11 @@ __CPROVER_ensures(gh_view & V_PAYLOAD)
 ;
 #endif
 #ifdef CV_HAS_co_force_sync
-void co_force_sync(COAW *this_) SYNC_CONTRACT(this_);
+void co_force_sync(COAW *this_) SYNC_CONTRACT(this_)
+#ifdef CV_CHECK_C03
+__CPROVER_ensures(gh_view & V_PAYLOAD)
+#endif
+;
 #endif
 
 /* ---- sync_awaiter::wakeup(): sets the flag (release) and notifies; the flag is what a blocked waiter is released by */
